@@ -199,6 +199,19 @@ func Run(dir, prop string, seed uint64, n int) error {
 			out.Count("gang-cases")
 			out.NonTrivial(label)
 		}
+		// one gang through the real allocate action: the commit discipline (Model/GangAttempt.v)
+		for i := 0; i < n; i++ {
+			term, label, nt := AttemptCase(root.Fork(uint64(4000000 + i)))
+			out.Add(term, label)
+			out.Count("attempt-cases")
+			if nt {
+				out.Count("attempt-cases-with-a-decision")
+				out.NonTrivial(label)
+			}
+			if strings.Contains(label, "bind(") && strings.Contains(label, "pipe(") {
+				out.Count("attempt-cases-with-binds-and-nominations")
+			}
+		}
 	}
 	if prop == "C02" {
 		// function-level correspondence for the choice of GPU groups (GetNodePreferableGpuForSharing)
@@ -260,7 +273,7 @@ func Run(dir, prop string, seed uint64, n int) error {
 	case "C02":
 		out.Stats["rule"] = out.Stats["rule"].(string) + " Plus function-level decision cases: generated nodes (1-4 GPUs, up to 6 shared / whole-GPU occupants running, terminating, bound or nominated) and a pending fractional / multi-fraction / gpu-memory task; the real GetNodePreferableGpuForSharing is called with the candidate list in pack, spread or shuffled order."
 	case "C03":
-		out.Stats["rule"] = out.Stats["rule"].(string) + " Plus function-level gang cases: generated pod groups (1-3 pod sets, 0-4 pods each in any status, real or simulated allocation) on which the real GetTasksToAllocate / GetTasksToEvict / readiness getters are called with the production pod-set order."
+		out.Stats["rule"] = out.Stats["rule"].(string) + " Plus function-level gang cases: generated pod groups (1-3 pod sets, 0-4 pods each in any status, real or simulated allocation) on which the real GetTasksToAllocate / GetTasksToEvict / readiness getters are called with the production pod-set order. Plus attempt cases: one pending gang (1-3 pod sets, minimum 1-3 each, some pods already running, single-set gangs with 0-2 surplus pods, one in five multi-set gangs not ready) on 1-3 nodes of 1-4 GPUs partly held by running or terminating filler pods, through the real allocate action; the model's allocate loop is driven by the observed Bind / TaskPipelined calls per pod set and must end in the observed statuses."
 	}
 	return out.Flush()
 }
